@@ -1,12 +1,10 @@
 #!/bin/bash
-# dev tool: confirm an independently written breaking change and run our checks against it.
+# dev tool: confirm an independently written breaking change and run our checks against it, in a scratch worktree (never touches /repo).
 # usage: seed_eval.sh <seed dir with patch.diff, demo.rs> <check ids...>
-# 1. in a scratch worktree: pinned tests pass with the patch (ui_tests ignored), demo fails with / passes without
-# 2. apply to /repo, run the checks, undo
-d=$1; shift
+d=$(realpath $1); shift
 w=/tmp/seedeval-$$
 git -C /repo worktree add -q --detach $w HEAD || exit 3
-trap "git -C /repo worktree remove --force $w >/dev/null 2>&1" EXIT
+trap "git -C /repo worktree remove --force $w >/dev/null 2>&1; rm -rf /tmp/seedeval-build-$$" EXIT
 cp $d/demo.rs $w/test_suite/tests/seeded_demo.rs
 export CARGO_TARGET_DIR=/tmp/seedeval-target CARGO_NET_OFFLINE=true
 cd $w
@@ -18,10 +16,10 @@ suite=$(cargo test --workspace --no-fail-fast --offline 2>&1 | grep -E '^test re
 echo "demo without patch: $base"
 echo "demo with patch:    $withp"
 echo "suite with patch:   $suite"
+unset CARGO_TARGET_DIR
 cd /verif
-git -C /repo apply $d/patch.diff || exit 3
 for c in "$@"; do
-  out=$(./check $c 2>&1 | grep -v '^WARNING' | tail -2 | cut -c1-260 | tr '\n' ' ')
+  out=$(VERIF_REPO=$w VERIF_BUILD=/tmp/seedeval-build-$$ ./check $c 2>&1 | grep -v '^WARNING' | tail -2 | cut -c1-260 | tr '\n' ' ')
   echo "check $c: $out"
 done
-git -C /repo checkout -- .
+
